@@ -756,8 +756,17 @@ def run_worlds(worldlist, procs=16, wall=20):
     import multiprocessing as mp
 
     ctx = mp.get_context("fork")
-    with ctx.Pool(procs, maxtasksperchild=50) as pool:
-        return pool.map(_worker, [(w, wall) for w in worldlist], chunksize=1)
+    from .common import _pool_worker_init
+
+    pool = ctx.Pool(procs, maxtasksperchild=50, initializer=_pool_worker_init)
+    try:
+        res = pool.map(_worker, [(w, wall) for w in worldlist], chunksize=1)
+        pool.close()
+        pool.join()
+        return res
+    except BaseException:
+        pool.terminate()
+        raise
 
 
 if __name__ == "__main__":
